@@ -1,7 +1,7 @@
 SPECIFICATION InitOnly
 CONSTANTS
   Configs <- RealTextConfigs
-  Ns = {1, 2, 3}
+  Ns = {1, 2}
   NestSets <- NestThorough
   Bounds <- BoundsLive
   Pools = {FALSE, TRUE}
